@@ -40,27 +40,60 @@ func c18Request(kind, field string, size int) vlib.Req {
 	case "noncors":
 	}
 	pad := func(n int) string { return strings.Repeat("a", max(n, 0)) }
+	field, unit, _ := strings.Cut(field, ":")
 	switch field {
 	case "origin-length":
-		base := "https://.example"
-		h["Origin"] = []string{"https://" + pad(size-len(base)) + "a.example"}
+		tail := "a.example"
+		if unit == "subdomain" {
+			tail = ".a.example" // a long label in front of an allowed wildcard base
+		}
+		base := "https://" + tail
+		h["Origin"] = []string{"https://" + pad(size-len(base)) + tail}
 		if size <= len(base) {
 			h["Origin"] = []string{"https://a.example"[:max(1, min(size, 17))]}
 		}
 	case "acrm-length":
-		h["Access-Control-Request-Method"] = []string{"P" + pad(size-1)}
+		switch unit {
+		case "lower":
+			h["Access-Control-Request-Method"] = []string{"put" + pad(size-3)}
+		case "upper":
+			h["Access-Control-Request-Method"] = []string{"PUT" + strings.Repeat("A", max(size-3, 0))}
+		default:
+			h["Access-Control-Request-Method"] = []string{"P" + pad(size-1)}
+		}
 	case "acrh-element-length":
-		h["Access-Control-Request-Headers"] = []string{"x-a,x-" + pad(size)}
+		if unit == "upper" {
+			h["Access-Control-Request-Headers"] = []string{"x-a,X-" + strings.Repeat("A", max(size, 0))}
+		} else {
+			h["Access-Control-Request-Headers"] = []string{"x-a,x-" + pad(size)}
+		}
 	case "acrh-elements":
-		// a sorted run of allowed names followed by repetitions (rejected at the first repetition, but only after
-		// the list has been scanned up to there) - and, for `*` configurations, reflected as is
-		h["Access-Control-Request-Headers"] = []string{strings.TrimSuffix(strings.Repeat("x-a,", size), ",")}
+		// size elements built from the unit (allowed name repeated, its upper-case spelling, an unknown name, a
+		// padded name, two allowed names alternating): rejected or reflected, never at a per-element cost
+		if unit == "" {
+			unit = "x-a"
+		}
+		units := strings.Split(unit, "|")
+		var b strings.Builder
+		for i := 0; i < size; i++ {
+			if i > 0 {
+				b.WriteByte(',')
+			}
+			b.WriteString(units[i%len(units)])
+		}
+		h["Access-Control-Request-Headers"] = []string{b.String()}
 	case "acrh-empty-elements":
 		h["Access-Control-Request-Headers"] = []string{"x-a" + strings.Repeat(",", size)}
 	case "acrh-lines":
+		if unit == "" {
+			unit = "x-a"
+		}
+		if unit == "empty" {
+			unit = ""
+		}
 		lines := make([]string, size)
 		for i := range lines {
-			lines[i] = "x-a"
+			lines[i] = unit
 		}
 		h["Access-Control-Request-Headers"] = lines
 	}
@@ -150,8 +183,13 @@ func checkC18(c *vlib.Ctx) (string, string) {
 		name   string
 		ladder []int
 	}{
-		{"origin-length", byteLadder}, {"acrm-length", byteLadder}, {"acrh-element-length", byteLadder},
-		{"acrh-elements", countLadder}, {"acrh-empty-elements", countLadder}, {"acrh-lines", countLadder},
+		{"origin-length", byteLadder}, {"origin-length:subdomain", byteLadder},
+		{"acrm-length", byteLadder}, {"acrm-length:lower", byteLadder}, {"acrm-length:upper", byteLadder},
+		{"acrh-element-length", byteLadder}, {"acrh-element-length:upper", byteLadder},
+		{"acrh-elements", countLadder}, {"acrh-elements:X-A", countLadder}, {"acrh-elements:x-zz", countLadder}, {"acrh-elements: x-a ", countLadder},
+		{"acrh-elements:x-a|x-b", countLadder}, {"acrh-elements:x-a|X-B|x-zz", countLadder}, {"acrh-elements:Authorization", countLadder},
+		{"acrh-empty-elements", countLadder},
+		{"acrh-lines", countLadder}, {"acrh-lines:X-A", countLadder}, {"acrh-lines:x-zz", countLadder}, {"acrh-lines:empty", countLadder}, {"acrh-lines:x-a,x-b", countLadder},
 	}
 	maxSeen := 0.0
 	hist := map[string]int{}
@@ -164,7 +202,7 @@ func checkC18(c *vlib.Ctx) (string, string) {
 			}
 			for _, kind := range []string{"preflight", "actual", "noncors"} {
 				for _, f := range fields {
-					if kind != "preflight" && f.name != "origin-length" && f.name != "acrh-lines" {
+					if kind != "preflight" && !strings.HasPrefix(f.name, "origin-length") && f.name != "acrh-lines" {
 						continue // ACRM/ACRH are only looked at on preflights; keep two fields as a control
 					}
 					baseOf := map[string]int{} // fingerprint -> smallest size
